@@ -69,6 +69,13 @@ package client
 // theory; what is stated are the structural facts the documented syntax relies on: each of the three
 // escapes is replaced at EVERY occurrence, an option is split into key and value at the FIRST '=' only,
 // and the closing brace replaces the last comma of a non-empty result.
+// ParseConfig (C20): an argument is taken for an option string only if it contains BOTH a ';' and a '=' (two
+// tests); anything else is a path to a JSON file. The JSON decoding itself is encoding/json's.
+//@ func ParseConfig
+//@   atcall ssvToJson requires bothMarkersTested: calls("strings.Contains") == 2
+//@   atcall ReadFile requires thePathGiven: arg0.(string) == conf
+//@   flag noframe
+//@   flag nosafety
 // strings.Split / SplitN return a new slice (they never hand back memory the caller already holds)
 //@ func strings.Split
 //@   flag trusted
